@@ -25,6 +25,7 @@ import (
 	"github.com/siyul-park/uniflow/pkg/spec"
 	"github.com/siyul-park/uniflow/pkg/symbol"
 	"github.com/siyul-park/uniflow/pkg/types"
+	"verif/harness/gal"
 )
 
 func init() { runners["C19"] = runC19 }
@@ -319,9 +320,9 @@ func (o *obs19) finish(w *nw02) string {
 func runC19(seed int64, n int, tier string) *Result {
 	res := &Result{
 		Prop:     "C19",
-		Requires: []string{"Runtime.Agent", "Runtime.CheckAgent"},
-		CaseType: "c19case",
-		OkFn:     "c19ok",
+		Requires: []string{"Runtime.Agent", "Runtime.AgentProc", "Runtime.CheckAgent"},
+		CaseType: "c19any",
+		OkFn:     "c19ok_any",
 		Rule: "the node-level workflows of C02 (real one-to-one / one-to-many / many-to-one nodes in chains, fan-out, diamond, fan-in, lone fan-out; actions held open and " +
 			"released in random order; 2-4 pipelined requests) run three times from one seed: plain, with the agent attached (no breakpoint), and with agent and debugger " +
 			"(up to 3 breakpoints by process / symbol / in-port / out-port / everything, Pause / Step / RemoveBreakpoint at random while packets are paused, finally either all " +
@@ -349,7 +350,7 @@ func runC19(seed int64, n int, tier string) *Result {
 			}
 			if o != nil && o.gallina != "" {
 				// one Coq case per observed run
-				res.Cases = append(res.Cases, Case{Gallina: o.gallina, Input: map[string]any{"seed": caseSeed, "mode": mode, "moves": o.moves, "events": len(o.events)},
+				res.Cases = append(res.Cases, Case{Gallina: "(inl " + o.gallina + ")", Input: map[string]any{"seed": caseSeed, "mode": mode, "moves": o.moves, "events": len(o.events)},
 					Nontrivial: o.nontrivial || o.twoPort, Key: strings.Join(o.events, ";")})
 				if o.nontrivial {
 					res.Hist["paused_runs"]++
@@ -367,18 +368,23 @@ func runC19(seed int64, n int, tier string) *Result {
 			if only {
 				msg = "the same workflow and seed answer correctly without the agent, but: " + msg
 			}
-			res.Cases = append(res.Cases, Case{Gallina: "(mk19 [] [])", Input: map[string]any{"seed": caseSeed}, Nontrivial: true, Key: fmt.Sprint(caseSeed), OracleFail: msg})
+			res.Cases = append(res.Cases, Case{Gallina: "(inl (mk19 [] []))", Input: map[string]any{"seed": caseSeed}, Nontrivial: true, Key: fmt.Sprint(caseSeed), OracleFail: msg})
 		}
+	}
+	// the agent across processes: opens, requests, answers and exits (with requests unanswered) of 2-3 processes
+	for i := 0; i < 2*n; i++ {
+		g, in, f := agentProcCase19(rand.New(rand.NewSource(seed*7919+int64(i))), res.Hist)
+		res.Cases = append(res.Cases, Case{Gallina: "(inr " + g + ")", Input: in, Nontrivial: true, OracleFail: f})
 	}
 	for _, how := range []string{"close", "remove", "close-one-by-one"} {
 		if f := deterministicRelease19(how); f != "" {
-			res.Cases = append(res.Cases, Case{Gallina: "(mk19 [] [])", Input: "deterministic: five breakpoints, a packet paused at each, then " + how, Nontrivial: true, Key: "rel-" + how, OracleFail: f})
+			res.Cases = append(res.Cases, Case{Gallina: "(inl (mk19 [] []))", Input: "deterministic: five breakpoints, a packet paused at each, then " + how, Nontrivial: true, Key: "rel-" + how, OracleFail: f})
 		}
 	}
 	det, g := deterministicFrames19()
-	res.Cases = append(res.Cases, Case{Gallina: g, Input: "deterministic: one symbol, two out-ports, responses in the opposite order of the requests", Nontrivial: true, Key: "det", OracleFail: det})
-	res.Cases = append(res.Cases, Case{Gallina: "(mk19 [] [])", Input: "deterministic: two requests outstanding on one in-port (fan-in), answered by two goroutines at once, the first held inside the packet hooks", Nontrivial: true, Key: "det-pairing", OracleFail: deterministicPairing19()})
-	res.Cases = append(res.Cases, Case{Gallina: "(mk19 [] [])", Input: "deterministic: a process terminates between a port's liveness check and the agent's open hook; another process then sends a request", Nontrivial: true, Key: "det-exit-during-open", OracleFail: deterministicExitDuringOpen19()})
+	res.Cases = append(res.Cases, Case{Gallina: "(inl " + g + ")", Input: "deterministic: one symbol, two out-ports, responses in the opposite order of the requests", Nontrivial: true, Key: "det", OracleFail: det})
+	res.Cases = append(res.Cases, Case{Gallina: "(inl (mk19 [] []))", Input: "deterministic: two requests outstanding on one in-port (fan-in), answered by two goroutines at once, the first held inside the packet hooks", Nontrivial: true, Key: "det-pairing", OracleFail: deterministicPairing19()})
+	res.Cases = append(res.Cases, Case{Gallina: "(inl (mk19 [] []))", Input: "deterministic: a process terminates between a port's liveness check and the agent's open hook; another process then sends a request", Nontrivial: true, Key: "det-exit-during-open", OracleFail: deterministicExitDuringOpen19()})
 	return res
 }
 
@@ -670,4 +676,163 @@ func deterministicRelease19(how string) string {
 		}
 	}
 	return ""
+}
+
+
+// ---- the agent across processes (Runtime/AgentProc.v) ----
+type bareNode19 struct {
+	in  *port.InPort
+	out *port.OutPort
+}
+
+func (n *bareNode19) In(name string) *port.InPort {
+	if name == node.PortIn {
+		return n.in
+	}
+	return nil
+}
+func (n *bareNode19) Out(name string) *port.OutPort {
+	if name == node.PortOut {
+		return n.out
+	}
+	return nil
+}
+func (n *bareNode19) Close() error { n.in.Close(); n.out.Close(); return nil }
+
+// agentProcCase19 drives a real Agent with 2-3 processes on the in-port of one loaded symbol: open (the agent's open hook
+// accepts the process and instruments its reader), request, answer, exit - also with requests still unanswered, whose drop
+// notices the closing reader hands out through the packet hooks after the agent's exit hook has run.  The harness's own
+// hooks on the reader give the firing sequence; after every operation it reads, for every process, whether the agent lists
+// it and the frames it holds for it.
+func agentProcCase19(r *rand.Rand, hist map[string]int) (g string, input any, fail string) {
+	defer func() {
+		if p := recover(); p != nil {
+			fail = fmt.Sprintf("agent/process scenario panicked: %v", p)
+			if g == "" {
+				g = "[]"
+			}
+		}
+	}()
+	bn := &bareNode19{in: port.NewIn(), out: port.NewOut()}
+	sb := &symbol.Symbol{Spec: &spec.Meta{ID: uuid.Must(uuid.NewV7()), Kind: "k", Namespace: "default", Name: "ap"}, Node: bn}
+	in := sb.In(node.PortIn)
+	sb.Out(node.PortOut)
+	agent := uruntime.NewAgent()
+	if err := agent.Load(sb); err != nil {
+		return "[]", nil, "agent.Load: " + err.Error()
+	}
+	defer agent.Close()
+	src := port.NewOut()
+	src.Link(in)
+	defer src.Close()
+
+	np := 2 + r.Intn(2)
+	procs := make([]*process.Process, np)
+	writers := make([]*packet.Writer, np)
+	readers := make([]*packet.Reader, np)
+	pending := make([][]*packet.Packet, np) // requests taken from the reader, not yet answered
+	dead := make([]bool, np)
+	for i := range procs {
+		procs[i] = process.New()
+	}
+	defer func() {
+		for _, p := range procs {
+			p.Exit(nil)
+		}
+	}()
+	var mu sync.Mutex
+	ids := map[*packet.Packet]int{}
+	idOf := func(p *packet.Packet) int {
+		if id, ok := ids[p]; ok {
+			return id
+		}
+		ids[p] = len(ids) + 1
+		return ids[p]
+	}
+	var evs []string
+	fire := func(i int, out bool) packet.Hook {
+		return packet.HookFunc(func(p *packet.Packet) {
+			mu.Lock()
+			defer mu.Unlock()
+			k := "HIn"
+			if out {
+				k = "HOut"
+			}
+			evs = append(evs, fmt.Sprintf("PFire %d (%s (mkport 0 false 0) %d)", i, k, idOf(p)))
+		})
+	}
+	var steps, ops []string
+	observe := func() {
+		time.Sleep(300 * time.Microsecond)
+		mu.Lock()
+		defer mu.Unlock()
+		var obs []string
+		for i, p := range procs {
+			var fr []string
+			for _, f := range agent.Frames(p.ID()) {
+				a, b := "None", "None"
+				if f.InPck != nil {
+					a = fmt.Sprintf("(Some %d)", idOf(f.InPck))
+				}
+				if f.OutPck != nil {
+					b = fmt.Sprintf("(Some %d)", idOf(f.OutPck))
+				}
+				fr = append(fr, fmt.Sprintf("(%s, %s)", a, b))
+			}
+			obs = append(obs, fmt.Sprintf("(%d, %s, %s)", i, gal.Bool(agent.Process(p.ID()) != nil), gal.List(fr)))
+		}
+		steps = append(steps, fmt.Sprintf("(%s, %s)", gal.List(evs), gal.List(obs)))
+		evs = nil
+	}
+	nops := 6 + r.Intn(14)
+	for s := 0; s < nops; s++ {
+		i := r.Intn(np)
+		switch c := r.Intn(10); {
+		case dead[i]:
+			continue
+		case writers[i] == nil:
+			mu.Lock()
+			evs = append(evs, fmt.Sprintf("PAccept %d", i))
+			mu.Unlock()
+			writers[i] = src.Open(procs[i])
+			readers[i] = in.Open(procs[i])
+			readers[i].AddInboundHook(fire(i, false))
+			readers[i].AddOutboundHook(fire(i, true))
+			ops = append(ops, fmt.Sprintf("open p%d", i))
+			hist["ap-open"]++
+		case c < 4:
+			if writers[i].Write(packet.New(types.NewInt(s))) != 1 {
+				return "[]", ops, "a write to an open in-port was not accepted"
+			}
+			select {
+			case p := <-readers[i].Read():
+				pending[i] = append(pending[i], p)
+			case <-time.After(2 * time.Second):
+				return "[]", ops, "a written request did not reach the reader"
+			}
+			ops = append(ops, fmt.Sprintf("request p%d", i))
+			hist["ap-request"]++
+		case c < 7 && len(pending[i]) > 0:
+			pending[i] = pending[i][1:]
+			readers[i].Receive(packet.New(types.NewInt(1000 + s)))
+			ops = append(ops, fmt.Sprintf("answer p%d", i))
+			hist["ap-answer"]++
+		case c >= 8:
+			mu.Lock()
+			evs = append(evs, fmt.Sprintf("PExit %d", i))
+			mu.Unlock()
+			if len(pending[i]) > 0 {
+				hist["ap-exit-with-unanswered"]++
+			}
+			procs[i].Exit(nil)
+			dead[i] = true
+			time.Sleep(time.Millisecond)
+			ops = append(ops, fmt.Sprintf("exit p%d (%d unanswered)", i, len(pending[i])))
+			hist["ap-exit"]++
+		default:
+			continue
+		}
+		observe()
+	}
+	return gal.List(steps), ops, ""
 }
